@@ -509,12 +509,20 @@ func checkC02Layout(c *Check, p *Program) {
 				if b.desc == "tail" {
 					// the decoder hands the rest to another decode function: every
 					// remaining encoder item must belong to that destination
+					seenDest := false
 					for _, r := range pitems[i:] {
 						if r.kind == "const" || (r.kind == "bytes" && strings.Contains(r.path, "local array")) {
-							continue // literal constants after the decoded part (e.g. the CRD of a connect response)
+							// literal constants behind the decoded part (e.g. the CRD of a connect response); in
+							// front of it they would shift what the decoder reads
+							if !seenDest {
+								diffs = append(diffs, fmt.Sprintf("item %d: encoder writes %s in front of %s, the decoder reads %s at this offset", i, r, b.path, b.path))
+							}
+							continue
 						}
 						if !strings.Contains(r.path, b.path) {
 							diffs = append(diffs, fmt.Sprintf("item %d: encoder writes %s where the decoder decodes %s", i, r, b.path))
+						} else {
+							seenDest = true
 						}
 					}
 					n = len(pitems)
